@@ -28,6 +28,7 @@ import IvpModel.Proofs.ReflectRk4
 import IvpModel.Proofs.ReflectRk23
 import IvpModel.Proofs.ReflectHairer
 import IvpModel.Proofs.ReflectDopri5
+import IvpModel.Proofs.ReflectDop853
 
 noncomputable section
 variable {K : Type} [Field K] [LinearOrder K] [IsStrictOrderedRing K] [SqrtPow K]
@@ -176,6 +177,18 @@ theorem c13_reflect_dopri5_whole_run {σ : Type} {n : Nat} (L : Ctl.HLits K) (xe
       = (Ctl.hSolve (Ctl.dopri5Params L xend posneg uround safety scaleMin scaleMax beta hmax nmax nstiff dense) (Ctl.dopri5Kernel atol rtol)
         f ob obs0 x0 y0 firstStep (Ctl.hinitCall atol rtol x0 y0 posneg hmaxArg iord) fo hl fuel).map Ctl.rResult :=
   Ctl.dopri5Solve_reflect L xend posneg uround safety scaleMin scaleMax beta hmax nmax nstiff dense atol rtol f ob obs0 x0 y0 firstStep
+    hmaxArg iord fo hl hp fuel
+
+/-- **Whole runs of DOP853 under time reflection**: the translated regions of dop853.rs (twelve stages, combination, error norm,
+    FSAL evaluation, stiffness quotient, dense output with its three extra stages, interpolant) obey the mirror laws. -/
+theorem c13_reflect_dop853_whole_run {σ : Type} {n : Nat} (L : Ctl.HLits K) (xend posneg uround safety scaleMin scaleMax beta hmax : K)
+    (nmax nstiff : Nat) (dense : Bool) (atol rtol : Ctl.Vec K n) (f : Ctl.Rhs K n) (ob : Ctl.Obs σ K n) (obs0 : σ) (x0 : K)
+    (y0 : Ctl.Vec K n) (firstStep : Option K) (hmaxArg : K) (iord : Nat) (fo hl : K) (hp : posneg ≠ 0) (fuel : Nat) :
+    Ctl.hSolve (Ctl.dop853Params L (-xend) (-posneg) uround safety scaleMin scaleMax beta hmax nmax nstiff dense) (Ctl.dop853Kernel atol rtol)
+        (Ctl.rRhs f) (Ctl.rObs ob) obs0 (-x0) y0 firstStep (Ctl.hinitCall atol rtol (-x0) y0 (-posneg) hmaxArg iord) fo hl fuel
+      = (Ctl.hSolve (Ctl.dop853Params L xend posneg uround safety scaleMin scaleMax beta hmax nmax nstiff dense) (Ctl.dop853Kernel atol rtol)
+        f ob obs0 x0 y0 firstStep (Ctl.hinitCall atol rtol x0 y0 posneg hmaxArg iord) fo hl fuel).map Ctl.rResult :=
+  Ctl.dop853Solve_reflect L xend posneg uround safety scaleMin scaleMax beta hmax nmax nstiff dense atol rtol f ob obs0 x0 y0 firstStep
     hmaxArg iord fo hl hp fuel
 
 /-- BDF's norm (translated from bdf.rs) is invariant under a common scaling of values and scales, whatever their size -/
